@@ -4,6 +4,7 @@
   search returns true exactly when some needle occurs in the content.
 -/
 import AferoVerif.Model.Contains
+import AferoVerif.Proofs.Util
 namespace AferoVerif.C17
 open AferoVerif
 
@@ -160,5 +161,43 @@ example : containsAny [1,2,3,4,5,6,7,8,9] [[4,5,6]] = true := by
   rw [contains_exact _ _ (by decide)]; decide
 example : containsAny [1,2,3,4,5,6,7,8,9] [[8,9],[3,3]] = true := by
   rw [contains_exact _ _ (by decide)]; decide
+
+/-! ### write helpers followed by ReadFile (over the MemMapFs model) -/
+
+/-- **WriteFile then ReadFile returns exactly the bytes given**, for every content and every state in
+    which names lead to allocated objects (every reachable state, `MemFs.reachable_inRange`), when the
+    name is not a directory and its parent directory exists (the ordinary POSIX preconditions) -/
+theorem writeFile_readFile (m : MemFs) (name : Str) (data : Bytes) (perm p : Nat) (pd : List (Key × Nat))
+    (hr : MemFs.InRange m) (hnd : ∀ f, m.lookup (keyOfStr name) = some f → (m.obj f).dir = false)
+    (hp : m.lookup (parentKey (keyOfStr name)) = some p) (hpd : (m.obj p).memDir = some pd)
+    (hpk : parentKey (keyOfStr name) ≠ keyOfStr name) :
+    (Util.writeFile m name data perm).2 = .ok ∧
+    (Util.readFile (Util.writeFile m name data perm).1 name).2 = some data :=
+  Util.writeFile_readFile_mem m name data perm p pd hr hnd hp hpd hpk
+
+/-- **WriteReader then ReadFile returns exactly the bytes given** (the directory part of the path
+    being an existing directory, the name not a directory) — whatever the file held before -/
+theorem writeReader_readFile (m : MemFs) (path : Str) (data : Bytes) (p : Nat) (pd : List (Key × Nat))
+    (hr : MemFs.InRange m) (hnd : ∀ f, m.lookup (keyOfStr path) = some f → (m.obj f).dir = false)
+    (hp : m.lookup (parentKey (keyOfStr path)) = some p) (hpd : (m.obj p).memDir = some pd)
+    (hpk : parentKey (keyOfStr path) ≠ keyOfStr path)
+    (hdir : (Path.splitDirFile path).1 = [] ∨ (m.lookup (keyOfStr (Path.splitDirFile path).1)).isSome) :
+    (Util.writeReader m path data).2 = .ok ∧
+    (Util.readFile (Util.writeReader m path data).1 path).2 = some data :=
+  Util.writeReader_readFile_mem m path data p pd hr hnd hp hpd hpk hdir
+
+/-- **SafeWriteReader** refuses an existing path without touching anything, and on a free path is
+    WriteReader -/
+theorem safeWriteReader_spec (m : MemFs) (path : Str) (data : Bytes) :
+    ((m.lookup (keyOfStr path)).isSome → Util.safeWriteReader m path data = (m, .fail "already exists")) ∧
+    (m.lookup (keyOfStr path) = none → Util.safeWriteReader m path data = Util.writeReader m path data) :=
+  ⟨Util.safeWriteReader_existing m path data, Util.safeWriteReader_free m path data⟩
+
+/-! non-vacuity: the hypotheses hold for "/f" on the initial filesystem, and the round trip computes -/
+example : MemFs.InRange MemFs.init ∧ MemFs.init.lookup (parentKey (keyOfStr "/f".toList)) = some 0 ∧
+    (MemFs.init.obj 0).memDir = some [] ∧ parentKey (keyOfStr "/f".toList) ≠ keyOfStr "/f".toList :=
+  ⟨MemFs.inRange_init, by decide, by decide, by decide⟩
+example : (Util.readFile (Util.writeFile MemFs.init "/f".toList [1, 2, 3] 0o644).1 "/f".toList).2 = some [1, 2, 3] := by decide
+example : (Util.readFile (Util.writeReader (Util.writeFile MemFs.init "/f".toList [1, 2, 3, 4, 5] 0o644).1 "/f".toList [9]).1 "/f".toList).2 = some [9] := by decide
 
 end AferoVerif.C17
